@@ -23,7 +23,7 @@ var (
 	tier   = flag.String("tier", "quick", "quick|thorough")
 	dir    = flag.String("dir", ".", "output directory")
 	mode   = flag.String("mode", "run", "run|exec")
-	capSec = flag.Int("cap", 30, "wall-clock cap per real execution, seconds")
+	capSec = flag.Int("cap", 30, "cap per real execution: seconds of CPU time of the executing process (wall clock: 10x)")
 )
 
 func main() {
@@ -127,21 +127,53 @@ func (r *runner) run(c execCase) (res execResult, status string) {
 		r.stop()
 		return res, "died"
 	}
-	select {
-	case line, ok := <-r.out:
-		if !ok {
-			r.stop()
-			return res, "died"
+	// the cap is on the CPU time the child spends on this case (the machine may be heavily loaded); a hard
+	// wall-clock limit of 10 x cap backs it up
+	cpu0 := cpuSeconds(r.cmd.Process.Pid)
+	start := time.Now()
+	tick := time.NewTicker(500 * time.Millisecond)
+	defer tick.Stop()
+	for {
+		select {
+		case line, ok := <-r.out:
+			if !ok {
+				r.stop()
+				return res, "died"
+			}
+			if err := json.Unmarshal(line, &res); err != nil {
+				r.stop()
+				return res, "died"
+			}
+			return res, "ok"
+		case <-tick.C:
+			used := cpuSeconds(r.cmd.Process.Pid) - cpu0
+			if used > float64(*capSec) || time.Since(start) > time.Duration(10**capSec)*time.Second {
+				r.stop()
+				return res, "timeout"
+			}
 		}
-		if err := json.Unmarshal(line, &res); err != nil {
-			r.stop()
-			return res, "died"
-		}
-		return res, "ok"
-	case <-time.After(time.Duration(*capSec) * time.Second):
-		r.stop()
-		return res, "timeout"
 	}
+}
+
+// cpuSeconds returns user+system CPU time of a process (Linux /proc), 0 if unavailable.
+func cpuSeconds(pid int) float64 {
+	b, err := os.ReadFile(fmt.Sprintf("/proc/%d/stat", pid))
+	if err != nil {
+		return 0
+	}
+	s := string(b)
+	i := strings.LastIndexByte(s, ')')
+	if i < 0 {
+		return 0
+	}
+	f := strings.Fields(s[i+1:])
+	if len(f) < 14 {
+		return 0
+	}
+	var ut, st float64
+	fmt.Sscan(f[11], &ut)
+	fmt.Sscan(f[12], &st)
+	return (ut + st) / 100
 }
 
 type fragCase struct {
@@ -161,7 +193,7 @@ func engineName(vm bool) string {
 	return "interp"
 }
 
-const vmEffectiveDepth = 2000 // runtime/vm_environment.go: defaultStackDepthLimit, whatever the configuration says
+const defaultDepth = 2000 // runtime/stackdepth.go defaultStackDepthLimit: used by both engines when no limit is configured
 
 func runMode(sum *lib.Summary) {
 	rng := lib.NewRng(*seed)
@@ -187,6 +219,7 @@ func runMode(sum *lib.Summary) {
 				n := int(d) + dn
 				p := depthProgram(n, native)
 				cases = append(cases, fragCase{P: p, VM: false, Comp: 10_000_000, Depth: d, Cat: "depth-boundary", Compare: true})
+				cases = append(cases, fragCase{P: p, VM: true, Comp: 10_000_000, Depth: d, Cat: "depth-boundary", Compare: true})
 			}
 		}
 	}
@@ -196,7 +229,7 @@ func runMode(sum *lib.Summary) {
 	}
 	for _, dn := range dns {
 		for _, native := range []bool{false, true} {
-			p := depthProgram(vmEffectiveDepth+dn, native)
+			p := depthProgram(defaultDepth+dn, native)
 			cases = append(cases, fragCase{P: p, VM: true, Comp: 10_000_000, Depth: 0, Cat: "depth-boundary", Compare: true})
 			cases = append(cases, fragCase{P: p, VM: false, Comp: 10_000_000, Depth: 0, Cat: "depth-boundary", Compare: true})
 		}
@@ -260,8 +293,8 @@ func runMode(sum *lib.Summary) {
 			ob = "OOther"
 		}
 		ld := fc.Depth
-		if ld == 0 || fc.VM {
-			ld = vmEffectiveDepth // default of the interpreter; constant of the VM
+		if ld == 0 {
+			ld = defaultDepth
 		}
 		lm := "(-1)"
 		if fc.Mem > 0 {
@@ -323,7 +356,7 @@ func directJudge(sum *lib.Summary, report func(string, string, any), cat, eng, s
 	switch status {
 	case "timeout":
 		report(fmt.Sprintf("not-bounded:%s:%s", cat, eng),
-			fmt.Sprintf("%s [%s]: the run did not stop within %d s although the computation limit is finite", cat, eng, *capSec), desc)
+			fmt.Sprintf("%s [%s]: the run did not stop within %d s of CPU time although the computation limit is finite", cat, eng, *capSec), desc)
 		return false
 	case "died":
 		report(fmt.Sprintf("process-died:%s:%s", cat, eng),
